@@ -233,6 +233,15 @@ func runC08(c *Ctx) {
 			c.Check(PParam("validator")(arg(n, 0)) && PParam("infraction")(arg(n, 2)), fk(f, "packet-content"), n, "the packet carries the reported validator and infraction")
 		}
 	}
+	// the outstanding flag is cleared only by an acknowledgement, or for a validator that is new to the
+	// consumer set (it cannot have a pending report); a power update of a present validator keeps it
+	c.OnlyCalledFrom("ck.Keeper.DeleteOutstandingDowntime", "ck.Keeper.OnRecvVSCPacket", "ck.Keeper.ApplyCCValidatorChanges")
+	if f := c.Fn("ck.Keeper.ApplyCCValidatorChanges"); f != nil {
+		known := ABool("GetCCValidator(addr) found", PCall("ck.Keeper.GetCCValidator", 1, nil))
+		for _, d := range Calls(f, false, "ck.Keeper.DeleteOutstandingDowntime") {
+			c.UnreachableWhen(d, fk(f, "flag-kept-for-present-validator"), T(known))
+		}
+	}
 
 	// ---- R5 -------------------------------------------------------------------------------------
 	c.Rule("R6", "accessor agreement for the report/acknowledgement state (consumer outstanding-downtime flags, provider slash acks)", 6)
